@@ -1137,6 +1137,8 @@ class PanicAnalysis:
         return None
 
     def in_any_actor(self, s):
+        if getattr(self, "all_reachable", False):
+            return True     # the caller analyses functions that are by definition fed with external input
         for a in self.W.actors:
             if a.fn.path not in self.universe:
                 continue
